@@ -118,6 +118,25 @@ func init() {
 			}
 			setCurrent("mvt.ProjectToWGS84/ToTile", ins)
 			site := guard(func() {
+				// history: the same Layer values were projected before - for the same tile with another extent, or for
+				// another tile - holding other features at the time; what they did then must not matter now
+				if c.rng.Intn(2) == 0 {
+					for _, l := range layers {
+						feats, ext := l.Features, l.Extent
+						sc := geojson.NewFeatureCollection()
+						sc.Append(geojson.NewFeature(orb.Point{100, 200}))
+						l.Features = sc.Features
+						t2 := tile
+						if c.rng.Intn(2) == 0 {
+							l.Extent = extsP2[c.rng.Intn(len(extsP2))]
+						} else {
+							t2 = maptile.New(c.rng.Uint32()%max, c.rng.Uint32()%max, z)
+						}
+						l.ProjectToWGS84(t2)
+						l.ProjectToTile(t2)
+						l.Features, l.Extent = feats, ext
+					}
+				}
 				if len(layers) == 1 && c.rng.Intn(2) == 0 {
 					layers[0].ProjectToWGS84(tile)
 					layers[0].ProjectToTile(tile)
